@@ -146,6 +146,98 @@ pub fn huge_request_child() -> ! {
     std::process::exit(0);
 }
 
+#[derive(Clone, Copy, Debug)]
+enum TOp {
+    Alloc(usize),
+    DropLast,
+    Expand(usize),
+    Shrink(usize),
+}
+
+fn tracker_programs() -> Vec<(&'static str, usize, Vec<Vec<TOp>>)> {
+    use TOp::*;
+    vec![
+        ("2x(alloc6,drop)/10", 10, vec![vec![Alloc(6), DropLast], vec![Alloc(6), DropLast]]),
+        ("3x(alloc4,drop)/10", 10, vec![vec![Alloc(4), DropLast], vec![Alloc(4), DropLast], vec![Alloc(4), DropLast]]),
+        ("(alloc6,drop,alloc6,drop)|(alloc5,drop)/10", 10, vec![vec![Alloc(6), DropLast, Alloc(6), DropLast], vec![Alloc(5), DropLast]]),
+        ("(alloc3,alloc3,drop,drop)|(alloc3,alloc3,drop,drop)/8", 8, vec![vec![Alloc(3), Alloc(3), DropLast, DropLast], vec![Alloc(3), Alloc(3), DropLast, DropLast]]),
+        ("(alloc7,drop)|(expand4,shrink4)/8", 8, vec![vec![Alloc(7), DropLast], vec![Expand(4), Shrink(4)]]),
+        ("(alloc5,drop)|(alloc5,drop)|(shrink3,expand3)/10", 10, vec![vec![Alloc(5), DropLast], vec![Alloc(5), DropLast], vec![Shrink(3), Expand(3)]]),
+    ]
+}
+
+/// One execution of a program of concurrent tracker users under the schedule of `tape` (scheduling points = the atomic
+/// operations of the budget counter); returns (violation, number of admitted allocations, the tape as consumed).
+fn run_tracker_program(limit: usize, prog: &[Vec<TOp>], tape: crate::explore::Tape) -> (Option<(String, String)>, usize, crate::explore::Tape) {
+    use std::sync::{Arc, Mutex};
+    use TOp::*;
+    let tracker = AllocTracker::with_limit(limit);
+    let sched = crate::sched::Sched::new(tape);
+    // events in execution order (one controlled thread runs at a time): (+bytes admitted / -bytes released, limit change)
+    let log: Arc<Mutex<Vec<(i64, i64)>>> = Arc::new(Mutex::new(vec![]));
+    let mut hs = vec![];
+    for (ti, ops) in prog.iter().enumerate() {
+        let (tracker, log, ops) = (tracker.clone(), Arc::clone(&log), ops.clone());
+        hs.push(sched.spawn(&format!("user{ti}"), move || {
+            let mut held: Vec<(jxl_grid::AllocHandle, usize)> = vec![];
+            for op in ops {
+                match op {
+                    Alloc(n) => {
+                        if let Ok(h) = tracker.alloc::<u8>(n) {
+                            log.lock().unwrap().push((n as i64, 0));
+                            held.push((h, n));
+                        }
+                    }
+                    DropLast => {
+                        if let Some((h, n)) = held.pop() {
+                            // released from the caller's point of view once drop has begun
+                            log.lock().unwrap().push((-(n as i64), 0));
+                            drop(h);
+                        }
+                    }
+                    Expand(n) => {
+                        tracker.expand_limit(n);
+                        log.lock().unwrap().push((0, n as i64));
+                    }
+                    Shrink(n) => {
+                        if tracker.shrink_limit(n).is_ok() {
+                            log.lock().unwrap().push((0, -(n as i64)));
+                        }
+                    }
+                }
+            }
+        }));
+    }
+    let out = sched.run(hs);
+    let events = log.lock().unwrap().clone();
+    let (mut live, mut lim, mut peak_over) = (0i64, limit as i64, None);
+    for (d, dl) in events.iter() {
+        live += d;
+        lim += dl;
+        if *d > 0 && live > lim && peak_over.is_none() {
+            peak_over = Some((live, lim));
+        }
+    }
+    let admitted = events.iter().filter(|e| e.0 > 0).count();
+    let v = if let Some(d) = &out.deadlock {
+        Some(("tracker-deadlock".to_string(), d.to_string()))
+    } else if let Some(v) = out.protocol_violations.first() {
+        Some(("tracker-panic".to_string(), v.clone()))
+    } else if let Some((live, lim)) = peak_over {
+        Some(("limit-exceeded-concurrently".to_string(), format!("handles of {live} bytes were live together under a limit of {lim}")))
+    } else if tracker.verif_bytes_left() as i64 != lim {
+        Some(("budget-lost-concurrently".to_string(), format!("after every handle was dropped the budget is {} instead of {lim}", tracker.verif_bytes_left())))
+    } else {
+        None
+    };
+    for l in &out.trace {
+        if std::env::var_os("VERIF_REPLAY_MODE").is_some() {
+            println!("  {l}");
+        }
+    }
+    (v, admitted, out.tape)
+}
+
 pub fn main(args: &crate::Args) {
     crate::util::install_panic_hook();
     if args.rest.first().map(|s| s == "--huge-request-child").unwrap_or(false) {
@@ -319,6 +411,39 @@ pub fn main(args: &crate::Args) {
             Err(e) => crate::explore::machinery_failure(&format!("cannot start the probe child: {e}")),
         }
     }
+    // concurrent users of one tracker: every interleaving of 2-3 threads at the granularity of the counter's atomic
+    // operations (hook H7 + the cooperative scheduler); oracle: handles that are live together never exceed the limit,
+    // and once every handle is dropped the whole budget is back
+    {
+        crate::sched::install_router();
+        jxl_grid::verif_atomic::set_hook(Some(std::sync::Arc::new(|addr| crate::sched::atomic_point(addr))));
+        let mut schedules = 0u64;
+        let mut outcomes: std::collections::BTreeSet<String> = Default::default();
+        for (pname, limit, prog) in &tracker_programs() {
+            let mut viol: Option<(String, String, Vec<u32>)> = None;
+            let (runs, capped) = crate::explore::explore(64, 200_000, |tape| {
+                let (v, admitted, t2) = run_tracker_program(*limit, prog, std::mem::take(tape));
+                outcomes.insert(format!("{pname}:{admitted}"));
+                if viol.is_none() {
+                    if let Some((k, w)) = v {
+                        viol = Some((k, w, t2.answers.clone()));
+                    }
+                }
+                *tape = t2;
+            });
+            schedules += runs as u64;
+            rep.evaluations += runs as u64;
+            if capped {
+                rep.caps.push(format!("concurrent tracker program {pname}: schedule enumeration capped at {runs}"));
+            }
+            if let Some((k, w, tape)) = viol {
+                rep.violation(&format!("{k}:{pname}"), &format!("{w} [program {pname}]"), &json!({"family": "concurrent-tracker", "program": pname, "schedule_tape": tape}));
+            }
+        }
+        jxl_grid::verif_atomic::set_hook(None);
+        rep.extra.insert("concurrent_tracker_schedules".into(), json!(schedules));
+        rep.extra.insert("concurrent_tracker_outcomes".into(), json!(outcomes.len()));
+    }
     // accounting arithmetic of the tracker itself, against sizes computed here: for element types whose size, alignment
     // and padding differ, every count around a limit must be admitted / refused by exactly size_of::<T>() * count bytes
     {
@@ -356,7 +481,7 @@ pub fn main(args: &crate::Args) {
         probe::<(u32, u8)>("(u32,u8)", &mut rep);
         probe::<[u64; 3]>("[u64;3]", &mut rep);
     }
-    rep.rule = format!("{} streams (jxlw corpus incl. multi-group with local trees, animations, layers; {} hostile fuzz regressions): the allocation profile of an unlimited decode+render is recorded (cfg-gated log of every tracked attempt) and the limit L takes EVERY value at which an outcome can change (outstanding+request of every attempt, -1 and +1; 0; 1; ample){} x 5 call histories (render every keyframe; render each twice in reverse; small region then full; fail, expand the limit, re-request the region, render; loading frame then render), all ending with dropping every object; oracle: no panic, tracked high-water <= L, an Ok render equals the unlimited render (a refused allocation must not be swallowed), after dropping everything outstanding = 0 and the full budget can be shrunk away. Plus partially received streams (7 streams x 18 cut points (10 %..95 % of the bytes) x (every outcome-changing limit + every single tracked attempt refused alone, modelling budget of a shared tracker momentarily held elsewhere): the loading render errs or equals the unlimited loading render; budget restored), one 4 TiB request under a 1 MiB budget in a child process (must be refused, not attempted), and the tracker's own arithmetic: alloc::<T>(count) for 9 element types (size != alignment, padded tuples) x 8 counts x limits (exact, -1, +1, half) must be admitted / refused, charged and released by exactly size_of::<T>() * count bytes. Non-trivial = at least one call returned an error; distinct by (stream, limit, history).", streams.len(), streams.iter().filter(|s| s.0.starts_with("fuzz:")).count(), if quick { " (quick: at most ~120 limits per stream, evenly spaced over the sorted set)" } else { "" });
+    rep.rule = format!("{} streams (jxlw corpus incl. multi-group with local trees, animations, layers; {} hostile fuzz regressions): the allocation profile of an unlimited decode+render is recorded (cfg-gated log of every tracked attempt) and the limit L takes EVERY value at which an outcome can change (outstanding+request of every attempt, -1 and +1; 0; 1; ample){} x 5 call histories (render every keyframe; render each twice in reverse; small region then full; fail, expand the limit, re-request the region, render; loading frame then render), all ending with dropping every object; oracle: no panic, tracked high-water <= L, an Ok render equals the unlimited render (a refused allocation must not be swallowed), after dropping everything outstanding = 0 and the full budget can be shrunk away. Plus ALL interleavings (at the counter's atomic operations) of 6 small programs of 2-3 threads that allocate, drop, expand and shrink on one shared tracker (live handles never exceed the limit, full budget back at the end); partially received streams (7 streams x 18 cut points (10 %..95 % of the bytes) x (every outcome-changing limit + every single tracked attempt refused alone, modelling budget of a shared tracker momentarily held elsewhere): the loading render errs or equals the unlimited loading render; budget restored), one 4 TiB request under a 1 MiB budget in a child process (must be refused, not attempted), and the tracker's own arithmetic: alloc::<T>(count) for 9 element types (size != alignment, padded tuples) x 8 counts x limits (exact, -1, +1, half) must be admitted / refused, charged and released by exactly size_of::<T>() * count bytes. Non-trivial = at least one call returned an error; distinct by (stream, limit, history).", streams.len(), streams.iter().filter(|s| s.0.starts_with("fuzz:")).count(), if quick { " (quick: at most ~120 limits per stream, evenly spaced over the sorted set)" } else { "" });
     rep.sample(json!({"item": streams[1].0, "limits": preps[1].limits.iter().take(12).collect::<Vec<_>>(), "histories": N_HIST}));
     rep.sample(json!({"item": streams.last().unwrap().0, "limits": preps.last().unwrap().limits.len()}));
     rep.extra.insert("limits_per_stream".into(), json!(streams.iter().zip(&preps).map(|(s, p)| (s.0.clone(), p.limits.len())).collect::<std::collections::BTreeMap<_, _>>()));
@@ -412,6 +537,24 @@ fn replay(path: &str) -> ! {
         }
         println!("VIOLATION property=C13 replay={path}\n  key=huge-request");
         std::process::exit(1)
+    }
+    if v["family"] == "concurrent-tracker" {
+        crate::sched::install_router();
+        jxl_grid::verif_atomic::set_hook(Some(std::sync::Arc::new(|addr| crate::sched::atomic_point(addr))));
+        let name = v["program"].as_str().unwrap();
+        let tape: Vec<u32> = v["schedule_tape"].as_array().unwrap().iter().map(|x| x.as_u64().unwrap() as u32).collect();
+        let (_, limit, prog) = tracker_programs().into_iter().find(|p| p.0 == name).unwrap_or_else(|| crate::explore::machinery_failure("unknown tracker program"));
+        let (r, _, _) = run_tracker_program(limit, &prog, crate::explore::Tape::from_answers(&tape));
+        match r {
+            None => {
+                println!("replay: property holds on this schedule");
+                std::process::exit(0)
+            }
+            Some((k, w)) => {
+                println!("VIOLATION property=C13 replay={path}\n  key={k} :: {w}");
+                std::process::exit(1)
+            }
+        }
     }
     if v["family"] == "partial" {
         let bytes = crate::report::unhex(v["stream_hex"].as_str().unwrap());
